@@ -106,3 +106,38 @@ fn vx_last_mut(v: &mut Vec<Snap>) -> (r: &mut Snap)
         *final(r) == final(v)@[old(v)@.len() - 1],
 { v.last_mut().unwrap() }
 
+
+// ---- ManagerInner::add_delta (manager.rs): the receiver-side glue between a reassembled message and the storage --------------------
+mod storage { pub use super::Error; }
+mod receiver { pub struct Error; }
+// libtw2_packer::Unpacker: only constructed and passed on here
+#[verifier::external_body]
+pub struct Unpacker<'a> { _p: core::marker::PhantomData<&'a [u8]> }
+impl<'a> Unpacker<'a> {
+    pub uninterp spec fn data(&self) -> Seq<u8>;
+    #[verifier::external_body]
+    pub fn new(data: &'a [u8]) -> (r: Unpacker<'a>) ensures r.data() == data@, { unimplemented!() }
+}
+impl Delta {
+    // the delta a byte string parses to (Delta::read: unit snap_ops), and the delta without deletions and updates
+    pub uninterp spec fn spec_parse(data: Seq<u8>) -> Delta;
+    pub uninterp spec fn spec_empty() -> Delta;
+    #[verifier::external_body]
+    pub fn read<W, O: FnMut(u16) -> Option<u32>>(&mut self, warn: &mut W, object_size: O, p: &mut Unpacker) -> (r: Result<(), snap::Error>)
+        ensures r is Ok ==> *final(self) == Delta::spec_parse((*old(p)).data()),
+    { unimplemented!() }
+    #[verifier::external_body]
+    pub fn clear(&mut self) ensures *final(self) == Delta::spec_empty(), { unimplemented!() }
+}
+impl vstd::std_specs::convert::FromSpecImpl<snap::Error> for MgrError {
+    open spec fn obeys_from_spec() -> bool { true }
+    open spec fn from_spec(e: snap::Error) -> MgrError { MgrError::Snap(e) }
+}
+impl vstd::std_specs::convert::FromSpecImpl<Error> for MgrError {
+    open spec fn obeys_from_spec() -> bool { true }
+    open spec fn from_spec(e: Error) -> MgrError { MgrError::Storage(e) }
+}
+impl vstd::std_specs::convert::FromSpecImpl<receiver::Error> for MgrError {
+    open spec fn obeys_from_spec() -> bool { true }
+    open spec fn from_spec(e: receiver::Error) -> MgrError { MgrError::Receiver(e) }
+}
